@@ -96,26 +96,30 @@ struct Sweep<'a> {
 
 impl<'a> Sweep<'a> {
     fn one(&mut self, family: &'static str, x: &[u8]) {
+        self.one_with(family, x, None)
+    }
+
+    /// `case`: how to rebuild the input when it is too large to be written out in a replay file
+    fn one_with(&mut self, family: &'static str, x: &[u8], case: Option<Value>) {
+        let case_json = |x: &[u8]| case.clone().unwrap_or_else(|| json!({"kind": "parse", "input": hex(x)}));
         if self.ctx.journaling() {
-            self.ctx.journal(|| json!({"kind": "parse", "input": hex(x)}));
+            self.ctx.journal(|| case_json(x));
         }
         self.rep.transitions += 1;
         self.rep.states += 1;
         let expected = wf(x);
-        subj::arm_steps(x.len());
-        let got = caught(|| subj::parse(x).map(|p| p.packet().to_vec()));
-        subj::disarm_steps();
+        let got = parse_guarded(x);
         let key = format!("{}:{}", family, clause_name(&expected));
         self.rep.class(&key);
         match self.mode {
             Mode::Total => match &got {
                 Err(p) => {
                     let sig = if p.contains("step ceiling") { "parse:nontermination".to_string() } else { format!("parse:panic:{}", panic_site(p)) };
-                    self.rep.violation(&sig, format!("parse panicked: {}", p), json!({"kind": "parse", "input": hex(x)}));
+                    self.rep.violation(&sig, format!("parse panicked: {}", p), case_json(x));
                 }
                 Ok(Ok(bytes)) => {
                     if bytes != x {
-                        self.rep.violation("parse:bytes_changed", "parsed packet does not hold the input bytes".into(), json!({"kind": "parse", "input": hex(x)}));
+                        self.rep.violation("parse:bytes_changed", "parsed packet does not hold the input bytes".into(), case_json(x));
                     }
                 }
                 Ok(Err(_)) => {}
@@ -130,7 +134,7 @@ impl<'a> Sweep<'a> {
                         } else {
                             format!("parser rejects a well-formed packet: {}", res.as_ref().err().cloned().unwrap_or_default())
                         };
-                        self.rep.violation(&sig, what, json!({"kind": "parse", "input": hex(x)}));
+                        self.rep.violation(&sig, what, case_json(x));
                     }
                 }
                 // a panic is C01's business, not C02's
@@ -140,6 +144,21 @@ impl<'a> Sweep<'a> {
             self.rep.sample(|| json!({"family": family, "input": hex(x), "policy": "accepted"}));
         }
     }
+}
+
+/// The parse under the step ceiling. Inputs above 100 KB are parsed on a thread of the default size Rust gives a
+/// spawned thread (2 MiB): recursion that grows with the input then ends the worker, which the engine reports.
+fn parse_guarded(x: &[u8]) -> Result<Result<Vec<u8>, String>, String> {
+    let run = |x: &[u8]| {
+        subj::arm_steps(x.len());
+        let got = caught(|| subj::parse(x).map(|p| p.packet().to_vec()));
+        subj::disarm_steps();
+        got
+    };
+    if x.len() <= 100_000 {
+        return run(x);
+    }
+    std::thread::scope(|sc| std::thread::Builder::new().stack_size(2 << 20).spawn_scoped(sc, || run(x)).expect("spawn").join().unwrap_or_else(|_| Err("parse thread died".into())))
 }
 
 fn run(ctx: &mut Ctx, rep: &mut Report, mode: Mode) {
@@ -350,6 +369,14 @@ fn run(ctx: &mut Ctx, rep: &mut Report, mode: Mode) {
                 sw.one("L1root", p);
             }
         });
+    }
+    // very many genuine minimal records (up to 65535, packets up to 1 MB)
+    for (i, mp) in many_params().into_iter().enumerate() {
+        if !sw.ctx.mine(i as u64) {
+            continue;
+        }
+        let x = many_record_packet(mp);
+        sw.one_with("L6many", &x, Some(json!({"kind": "many", "k": mp.kind, "n": mp.n, "split": mp.split, "q": mp.q})));
     }
     // L4
     let seeds = closure_seeds(tier.pick(0, 1));
@@ -622,12 +649,15 @@ fn prim_case(b: &[u8], o: usize) -> Result<String, (String, String)> {
 
 fn replay(case: &Value, mode: Mode) -> Result<String, String> {
     match case["kind"].as_str() {
-        Some("parse") => {
-            let x = unhex(case["input"].as_str().unwrap_or(""));
+        Some("parse") | Some("many") => {
+            let x = if case["kind"].as_str() == Some("many") {
+                let u = |k: &str| case[k].as_u64().unwrap_or(0) as usize;
+                many_record_packet(ManyParams { kind: u("k"), n: u("n"), split: u("split"), q: u("q") })
+            } else {
+                unhex(case["input"].as_str().unwrap_or(""))
+            };
             let expected = wf(&x);
-            subj::arm_steps(x.len());
-            let got = caught(|| subj::parse(&x).map(|p| p.packet().to_vec()));
-            subj::disarm_steps();
+            let got = parse_guarded(&x);
             println!("input ({} bytes): {}", x.len(), if x.len() <= 200 { hex(&x) } else { format!("{}...", hex(&x[..200])) });
             println!("policy verdict: {}", clause_name(&expected));
             println!("parser: {:?}", got.as_ref().map(|r| r.as_ref().map(|_| "Ok").map_err(|e| e.clone())));
